@@ -326,9 +326,21 @@ def c19_extract_case(ctx, drv, rng, i, fps):
     fps.add(("extract", i))
     # set_last_datetime
     project.time = rng.randint(0, 9)
-    unit = datetime.timedelta(minutes=rng.choice([1, 15, 60, 1440]))
+    unit = datetime.timedelta(minutes=rng.choice([0, 1, 15, 60, 1440]))      # a zero step length is a legal (falsy) value
     last = datetime.datetime(2022, 1, 1) + datetime.timedelta(minutes=rng.randrange(0, 100000))
-    got = project.set_last_datetime(last, unit_timedelta=unit)
+    old_init, old_unit = project.init_datetime, project.unit_timedelta
+    variant = rng.choice(["unit", "unit", "default-unit", "keep-init"])
+    if variant == "default-unit":
+        got = project.set_last_datetime(last)
+        unit = old_unit
+    elif variant == "keep-init":
+        got = project.set_last_datetime(last, unit_timedelta=unit, set_init_datetime=False)
+        if project.init_datetime != old_init:
+            ctx.violations.append(dict(property="C19", what="set_last_datetime(set_init_datetime=False) changed init_datetime",
+                                       case=dict(stream="c19", kind="setLast", time=project.time, unit=str(unit), last=str(last))))
+        project.init_datetime = got
+    else:
+        got = project.set_last_datetime(last, unit_timedelta=unit)
     if got + unit * (project.time - 1) != last or project.init_datetime != got or project.unit_timedelta != unit:
         ctx.violations.append(dict(property="C19", what="set_last_datetime: last simulated step does not fall on the given date",
                                    case=dict(stream="c19", kind="setLast", time=project.time, unit=str(unit), last=str(last))))
